@@ -55,6 +55,10 @@ def check(ctx):
     from rules.c11 import check_cbor_bstr, check_is_empty
     check_cbor_bstr(ctx, "R-1")
     check_is_empty(ctx, "R-1")
+    # "for every byte string b": the byte-level API is the trait defaults composed with the Value-level codecs checked above;
+    # no type overrides them (an overriding `ProtectedHeader::from_slice` that retains its input makes decode(encode(v)) != v)
+    from rules import c13
+    c13.check_byte_api(ctx.under("R-1", "bytes-api"))
     ctx.floor("R-1", "AsCborValue pairs cross-checked", n, 21)
     impls = [i for i in prog.impls if i.get("trait") == "common::AsCborValue"]
     ctx.ob("R-1", "all-impls-covered", len(impls) == n,
